@@ -127,12 +127,14 @@ Fixpoint restore_all (l : list ent) (mm : mem) : mem :=
   | [] => mm
   | e :: r => restore_all r (if is_tramp (e_ip e) then mm else upd mm (e_loc e) (e_ip e))
   end.
-(* mcount_rstack_rehook: from the top down, *parent_loc = the trampoline of the entry's kind *)
-Fixpoint rehook_all (l : list ent) (mm : mem) : mem :=
+(* mcount_rstack_rehook (since /repo fix C01-9: oldest entry first): *parent_loc = the trampoline of the
+   entry's kind; the entries of a tail-call chain share one slot, which ends up with the NEWEST one's *)
+Fixpoint rehook_from (l : list ent) (mm : mem) : mem :=
   match l with
   | [] => mm
-  | e :: r => rehook_all r (upd mm (e_loc e) (tramp_of (e_plt e)))
+  | e :: r => rehook_from r (upd mm (e_loc e) (tramp_of (e_plt e)))
   end.
+Definition rehook_all (l : list ent) (mm : mem) : mem := rehook_from (rev l) mm.
 (* the walk of mcount_auto_restore: first entry (downwards) whose parent_ip is not a trampoline *)
 Fixpoint restore_first (l : list ent) (mm : mem) : mem :=
   match l with
@@ -424,7 +426,6 @@ Definition expect := option (N * N).
      - a traced function entered while in_exception hands a frame address that does not separate
        dropped from live frames (e.g. -mfentry: the word below the slot is not a frame pointer);
      - tail calls while in_exception; setjmp / longjmp / nested throw while an exception is in flight;
-     - tail-call chains mixing PLT and mcount kinds;
      - _Unwind_RaiseException called through the PLT of the traced module.                         *)
 Definition rstep (st : rstk) (o : op) : option (rstk * expect) :=
   match o with
@@ -476,7 +477,6 @@ Definition rstep (st : rstk) (o : op) : option (rstk * expect) :=
       match frames st with
       | f :: rest =>
           if (f_slot f =? s) && negb (exc st) && (negb (flight st) || (0 <? extra st))
-             && all_homogeneous false (f_pend f)
           then Some (bump (mk st (fresh st s (f_ra f) (false :: f_pend f) :: rest)
                               (flight st) false (extra st) (stale st)), None)
           else None
@@ -486,7 +486,6 @@ Definition rstep (st : rstk) (o : op) : option (rstk * expect) :=
       match frames st with
       | f :: rest =>
           if (f_slot f =? s) && negb (exc st) && (negb (flight st) || (0 <? extra st))
-             && all_homogeneous true (f_pend f)
           then Some (bump (mk st (fresh st s (f_ra f) (true :: f_pend f) :: rest)
                               (flight st) false (extra st) (stale st)), None)
           else None
@@ -681,6 +680,167 @@ Fixpoint bad_indices {A} (f : A -> bool) (l : list A) (i : nat) : list nat :=
   | [] => []
   | x :: r => if f x then bad_indices f r (S i) else i :: bad_indices f r (S i)
   end.
+
+(* ================================================================ Part 1b: vfork
+   libmcount/plthook.c prepare_vfork / setup_vfork / restore_vfork.  vfork is a PLT_FL_FLUSH | PLT_FL_VFORK
+   function.  The child runs on the parent's memory and on the parent's shadow stack; it returns from vfork
+   through plthook_return (setup_vfork: own tid and trace buffer), makes calls, and finally execs or exits.
+   Then the parent resumes at plthook_return as well (libc's vfork keeps its return address in a register)
+   and finds whatever the child left: restore_vfork puts idx, record_idx, the saved copy of vfork's own entry
+   and the parent's trace buffer back.                                                             *)
+Inductive top :=
+| TOp (o : op)
+| TVfork (k s r : N) (child : list op).       (* vfork at slot s with return address r; what the child does *)
+
+Definition ob_of (v : val) (n : N) : obs := {| o_target := v; o_pops := n |}.
+Definition lastn {A} (n : nat) (l : list A) : list A := skipn (length l - n) l.
+
+Definition lstepT (s : lst) (t : top) : option (lst * list obs) :=
+  match t with
+  | TOp o => match lstep s o with Some (s', ob) => Some (s', [ob]) | None => None end
+  | TVfork k sl r child =>
+      let s1 := plthook_entry (with_m s (upd (m s) sl r)) KFlush k sl 0 in
+      match rs s1 with
+      | [] => None
+      | vtop :: _ =>
+          (* the child returns from vfork *)
+          match follow (fuel_of s1) s1 PRET 0 with
+          | None => None
+          | Some (s2, v2, n2) =>
+              match lrun s2 child with
+              | None => None
+              | Some (s3, obc) =>
+                  (* the parent returns from vfork: restore_vfork, then the ordinary exit path *)
+                  if Nat.ltb (length (rs s3)) (length (rs s1) - 1) then None else
+                  let s4 := {| rs := set_written vtop :: lastn (length (rs s1) - 1) (rs s3); ridx := ridx s1;
+                               inexc := inexc s3; m := m s3; jbs := jbs s3; jpc := jpc s3; out := out s1 |} in
+                  match follow (fuel_of s4) s4 PRET 0 with
+                  | None => None
+                  | Some (s5, v5, n5) => Some (s5, [obs0; ob_of v2 n2] ++ obc ++ [ob_of v5 n5])
+                  end
+              end
+          end
+      end
+  end.
+Fixpoint lrunT (s : lst) (ts : list top) : option (lst * list obs) :=
+  match ts with
+  | [] => Some (s, [])
+  | t :: r =>
+      match lstepT s t with
+      | None => None
+      | Some (s1, ob) => match lrunT s1 r with None => None | Some (s2, l) => Some (s2, ob ++ l) end
+      end
+  end.
+
+(* ground truth: the child may do anything a program may do as long as the frames that were live at the
+   vfork stay live (it must not return from the function that called vfork) and no exception is in flight
+   when it execs / exits; afterwards the parent continues with its own frames (and, the memory being shared,
+   with the jmp_bufs as the child left them) *)
+Fixpoint rrun_floor (floor : list rframe) (st : rstk) (ops : list op) : option (rstk * list expect) :=
+  match ops with
+  | [] => Some (st, [])
+  | o :: r =>
+      match rstep st o with
+      | None => None
+      | Some (st1, e) =>
+          if is_suffix floor (frames st1)
+          then match rrun_floor floor st1 r with None => None | Some (st2, l) => Some (st2, e :: l) end
+          else None
+      end
+  end.
+Definition rstepT (st : rstk) (t : top) : option (rstk * list expect) :=
+  match t with
+  | TOp o => match rstep st o with Some (st', e) => Some (st', [e]) | None => None end
+  | TVfork k s r child =>
+      if exc st || flight st then None else
+      match rstep st (Plt KFlush k s r 0) with                     (* the call of vfork *)
+      | Some (st1, e1) =>
+          match rstep st1 (Ret s) with                             (* its return in the child *)
+          | Some (st2, e2) =>
+              match rrun_floor (frames st) st2 child with
+              | Some (stc, ec) =>
+                  if exc stc || flight stc then None else
+                  Some ({| frames := frames st; next_id := next_id stc; jbt := jbt stc;
+                           flight := false; exc := false; extra := 0; stale := [] |},
+                        [e1; e2] ++ ec ++ [Some (r, 1)])           (* ... and in the parent *)
+              | None => None
+              end
+          | None => None
+          end
+      | None => None
+      end
+  end.
+Fixpoint rrunT (st : rstk) (ts : list top) : option (rstk * list expect) :=
+  match ts with
+  | [] => Some (st, [])
+  | t :: r =>
+      match rstepT st t with
+      | None => None
+      | Some (st1, e) => match rrunT st1 r with None => None | Some (st2, l) => Some (st2, e ++ l) end
+      end
+  end.
+Fixpoint all_ok (es : list expect) (obs : list obs) : bool :=
+  match es, obs with
+  | [], [] => true
+  | e :: er, o :: or => ok_obs e o && all_ok er or
+  | _, _ => false
+  end.
+Definition legal_progT (ts : list top) : bool := match rrunT rinit ts with Some _ => true | None => false end.
+Definition ok_runT (ts : list top) (obs : list obs) : bool :=
+  match rrunT rinit ts with Some (_, es) => all_ok es obs | None => false end.
+
+(* what the harness prints for a program with vfork sections: one digest per line (VFORK, VCHILD, the child's
+   operations, VPARENT) *)
+Definition ltraceT_step (s : lst) (t : top) : list digest * option lst :=
+  match t with
+  | TOp o => match lstep s o with Some (s', ob) => ([digest_of s' ob], Some s') | None => ([], None) end
+  | TVfork k sl r child =>
+      let s1 := plthook_entry (with_m s (upd (m s) sl r)) KFlush k sl 0 in
+      match rs s1 with
+      | [] => ([digest_of s1 obs0], None)
+      | vtop :: _ =>
+          match follow (fuel_of s1) s1 PRET 0 with
+          | None => ([digest_of s1 obs0], None)
+          | Some (s2, v2, n2) =>
+              let '(dc, fin) := ltrace s2 child in
+              match fin with
+              | None => (digest_of s1 obs0 :: digest_of s2 (ob_of v2 n2) :: dc, None)
+              | Some s3 =>
+                  if Nat.ltb (length (rs s3)) (length (rs s1) - 1)
+                  then (digest_of s1 obs0 :: digest_of s2 (ob_of v2 n2) :: dc, None) else
+                  let s4 := {| rs := set_written vtop :: lastn (length (rs s1) - 1) (rs s3); ridx := ridx s1;
+                               inexc := inexc s3; m := m s3; jbs := jbs s3; jpc := jpc s3; out := out s1 |} in
+                  match follow (fuel_of s4) s4 PRET 0 with
+                  | None => (digest_of s1 obs0 :: digest_of s2 (ob_of v2 n2) :: dc, None)
+                  | Some (s5, v5, n5) =>
+                      (digest_of s1 obs0 :: digest_of s2 (ob_of v2 n2) :: dc ++ [digest_of s5 (ob_of v5 n5)], Some s5)
+                  end
+              end
+          end
+      end
+  end.
+Fixpoint ltraceT (s : lst) (ts : list top) : list digest * option lst :=
+  match ts with
+  | [] => ([], Some s)
+  | t :: r =>
+      match ltraceT_step s t with
+      | (d, Some s1) => let '(l, fin) := ltraceT s1 r in (d ++ l, fin)
+      | (d, None) => (d, None)
+      end
+  end.
+Definition fcaseT := (list top * list N * list N * bool)%type.
+Fixpoint nops (ts : list top) : nat :=
+  match ts with [] => O | TOp _ :: r => S (nops r) | TVfork _ _ _ c :: r => (3 + length c + nops r)%nat end.
+Definition fagreeT (c : fcaseT) : bool :=
+  let '(ts, ds, recs, cr) := c in
+  match ltraceT init ts with
+  | (l, Some s) => negb cr && list_eqb digest_eqb l (decode_digests (S (nops ts)) ds)
+                   && list_eqb c3_eqb (map rec_code (out s)) (decode_recs recs)
+  | (l, None) => cr && list_eqb digest_eqb l (decode_digests (S (nops ts)) ds)
+  end.
+Definition fokT (c : fcaseT) : bool :=
+  let '(ts, ds, _, cr) := c in negb cr && ok_runT ts (map obs_of_digest (decode_digests (S (nops ts)) ds)).
+Definition flegalT (c : fcaseT) : bool := let '(ts, _, _, _) := c in legal_progT ts.
 
 (* ================================================================ Part 2: replay side *)
 From Coq Require Import ZArith.
